@@ -189,9 +189,13 @@ def _layout(rng, m, n):
 def random_svd(ctx, idx, rng):
     m, n = int(rng.integers(1, 25)), int(rng.integers(1, 25))
     lay, q0, q1 = _layout(rng, m, n)
-    kind = str(rng.choice(['decaying', 'flat', 'staircase', 'degenerate', 'deficient', 'random']))
+    kind = str(rng.choice(['decaying', 'flat', 'staircase', 'degenerate', 'deficient', 'random', 'zerocols', 'binary', 'dupcols']))
     cplx = bool(rng.random() < 0.5)
-    A = matrix_with_spectrum(rng, q0, q1, kind, cplx) * float(rng.choice([1, 1e-20, 1e20, 0.01]))
+    if kind in ('zerocols', 'binary', 'dupcols'):
+        A = gen.structured_block_matrix(rng, q0, q1, kind) * float(rng.choice([1, 1e-20, 1e20, 0.01]))
+        cplx = bool(np.iscomplexobj(A))
+    else:
+        A = matrix_with_spectrum(rng, q0, q1, kind, cplx) * float(rng.choice([1, 1e-20, 1e20, 0.01]))
     nA = np.linalg.norm(A)
     tols = [float(rng.choice(TOLS))]
     if nA > 0:
@@ -330,12 +334,12 @@ SPEC = {
                  'svd.input-unchanged', 'retained.exact-count', 'split.merge-error-identity', 'split.isometric-side',
                  'split.tol0-merge-undoes-split'],
     'workloads': [
-        Workload('exact-retained', exact_retained, quick=300, thorough=6000),
-        Workload('exact-svd', exact_svd, quick=300, thorough=6000),
-        Workload('random-svd', random_svd, quick=1500, thorough=60000),
-        Workload('random-retained', random_retained, quick=1500, thorough=30000),
-        Workload('split-tensor', split_tensor, quick=1200, thorough=30000),
-        Workload('insitu', insitu, quick=100, thorough=2000),
+        Workload('exact-retained', exact_retained, quick=300, thorough=30000),
+        Workload('exact-svd', exact_svd, quick=300, thorough=30000),
+        Workload('random-svd', random_svd, quick=1500, thorough=360000),
+        Workload('random-retained', random_retained, quick=1500, thorough=180000),
+        Workload('split-tensor', split_tensor, quick=1200, thorough=180000),
+        Workload('insitu', insitu, quick=100, thorough=8000),
     ],
     'shards': {'quick': 1, 'thorough': 16},
     'assumptions': ['numpy.linalg.svd of the full matrix is the independent spectrum', 'slack 1e-12 on threshold decisions that are not exact'],
